@@ -13,28 +13,46 @@ CLAUSE_PROPS = {
     "outcome": ["C14"], "trace": ["C14"],
 }
 
-CONTRACTS = ["A", "B", "F1", "F2"]
-LTD = [3, 6]            # model times of the chain's last-trading instants
-TIMES = list(range(1, 7))
+# two worlds: "base" (two assets, a chain of two futures addressed by its lead) and "offset" (a chain of three futures
+# addressed both by its lead, key CH, and one contract down the curve, key CH1 = FutureChain(..., month=1))
+VARIANTS = {
+    "base": {"contracts": ["A", "B", "F1", "F2"], "seq": ["F1", "F2"], "ltd": [3, 6], "times": list(range(1, 7)),
+             "chains": {"CH": 0}, "quote_keys": ["A", "F1", "F2", "CH"]},
+    "offset": {"contracts": ["A", "F1", "F2", "F3"], "seq": ["F1", "F2", "F3"], "ltd": [3, 6, 8], "times": [2, 3, 4, 6, 7],
+               "chains": {"CH": 0, "CH1": 1}, "quote_keys": ["F2", "CH", "CH1"]},
+}
+CONTRACTS = VARIANTS["base"]["contracts"]
+LTD = VARIANTS["base"]["ltd"]            # model times of the chain's last-trading instants
+TIMES = VARIANTS["base"]["times"]
 
 
-def _world():
+def keys_of(variant):
+    v = VARIANTS[variant]
+    return v["contracts"] + sorted(v["chains"]) + ["s:" + c for c in v["contracts"]]
+
+
+def _world(variant="base"):
     from . import impl  # noqa: F401
     from tradingenv.contracts import ETF, ES, FutureChain, AbstractContract
     from tradingenv.exchange import Exchange
-    f1, f2 = ES(2019, 3), ES(2019, 6)
-    cs = {"A": ETF("A"), "B": ETF("B"), "F1": f1, "F2": f2}
-    chain = FutureChain(contracts=[f2, f1])
-    l1, l2 = f1.last_trading_date, f2.last_trading_date
+    f1, f2, f3 = ES(2019, 3), ES(2019, 6), ES(2019, 9)
+    l1, l2, l3 = f1.last_trading_date, f2.last_trading_date, f3.last_trading_date
     sec = timedelta(seconds=1)
     # model time -> real time: 0,1 before the first last-trading instant, 2 one second before, 3 exactly at it ...
-    tmap = {0: datetime(2019, 1, 2), 1: datetime(2019, 2, 1), 2: l1 - sec, 3: l1, 4: l1 + sec, 5: l2 - sec, 6: l2}
+    tmap = {0: datetime(2019, 1, 2), 1: datetime(2019, 2, 1), 2: l1 - sec, 3: l1, 4: l1 + sec, 5: l2 - sec, 6: l2,
+            7: l2 + sec, 8: l3}
+    if variant == "base":
+        cs = {"A": ETF("A"), "B": ETF("B"), "F1": f1, "F2": f2}
+        chain = {"CH": FutureChain(contracts=[f2, f1])}
+    else:
+        cs = {"A": ETF("A"), "F1": f1, "F2": f2, "F3": f3}
+        chain = {"CH": FutureChain(contracts=[f2, f3, f1]), "CH1": FutureChain(contracts=[f3, f1, f2], month=1)}
     return Exchange(), cs, chain, tmap, AbstractContract
 
 
 def _key_obj(k, cs, chain):
-    if k == "CH":
-        return chain
+    if k in chain:
+        return chain[k]
     if k.startswith("s:"):
         return cs[k[2:]].symbol
     return cs[k]
@@ -82,18 +100,19 @@ def apply(ex, cs, chain, tmap, AC, op, state):
     return out
 
 
-KEYS = CONTRACTS + ["CH"] + ["s:" + c for c in CONTRACTS]
+KEYS = keys_of("base")
 FIELD_CLAUSE = {"bid": "quote", "ask": "quote", "alive": "dead", "nh": "history", "hb": "history", "ha": "history",
                 "buy2": "side", "sell2": "side", "mid2": "side"}
 
 
-def spec_obs(books, now, k):
+def spec_obs(books, now, k, variant="base"):
     """mirror of ExchangeTrace!Obs on a dumped state (used by the spec -> code replay)"""
-    if k == "CH":
-        idx = sum(1 for x in LTD if x <= now)
-        if idx >= 2:
+    v = VARIANTS[variant]
+    if k in v["chains"]:
+        idx = sum(1 for x in v["ltd"] if x <= now) + v["chains"][k]
+        if idx >= len(v["seq"]):
             return None
-        c = ["F1", "F2"][idx]
+        c = v["seq"][idx]
     elif k.startswith("s:"):
         c = k[2:]
     else:
@@ -112,7 +131,9 @@ def replay_chunk(ctx, texts):
         ops = list(s["hist"])
         if not ops:
             continue
-        ex, cs, chain, tmap, AC = _world()
+        variant = ctx.get("variant", "base")
+        keys = keys_of(variant)
+        ex, cs, chain, tmap, AC = _world(variant)
         saved = AC.now
         st = {"now": 0}
         AC.now = tmap[0]
@@ -125,9 +146,9 @@ def replay_chunk(ctx, texts):
                     bad = (i, "outcome", "op %s through key %s: outcome %s, spec %s" % (op["op"], op["k"], o, op["out"]))
                     break
             if bad is None:
-                got = observe(ex, cs, chain, KEYS)
-                for k in KEYS:
-                    e = spec_obs(s["books"], s["gnow"], k)
+                got = observe(ex, cs, chain, keys)
+                for k in keys:
+                    e = spec_obs(s["books"], s["gnow"], k, variant)
                     if e is None:
                         if got[k]["bid"] != -2:
                             bad = (len(ops) - 1, "alias", "chain key resolved past its last contract: %s" % got[k])
@@ -135,7 +156,7 @@ def replay_chunk(ctx, texts):
                     for f, v in e.items():
                         if got[k][f] != v:
                             clause = FIELD_CLAUSE[f]
-                            if k == "CH":
+                            if k in chain:
                                 clause = "alias"
                             elif k.startswith("s:"):
                                 clause = "string_key"
@@ -156,9 +177,15 @@ def replay_chunk(ctx, texts):
     return out
 
 
-def model(depth):
-    defs = {"Contracts": set(CONTRACTS), "ChainSeq": ["F1", "F2"], "ChainLtd": LTD, "Bids": {8, 12}, "Spreads": {0, 2},
-            "Times": set(TIMES), "QuoteKeys": {"A", "F1", "F2", "CH"}}
+def chain_off(variant):
+    return tlagen.Raw("[" + ", ".join("%s |-> %d" % kv for kv in sorted(VARIANTS[variant]["chains"].items())) + "]")
+
+
+def model(depth, variant="base"):
+    v = VARIANTS[variant]
+    defs = {"Contracts": set(v["contracts"]), "ChainSeq": list(v["seq"]), "ChainLtd": list(v["ltd"]), "ChainOff": chain_off(variant),
+            "Bids": {8, 12}, "Spreads": {0, 2} if variant == "base" else {2},
+            "Times": set(v["times"]), "QuoteKeys": set(v["quote_keys"])}
     inv = ["LastQuoteWins", "DeadShowsNoPrice", "ChainAlias", "ExecSide"]
     props = ["Isolation", "DeadStaysDead", "HistoryAppendOnly", "LeadMonotone"]
     return (tlagen.mc_module("MC", "Exchange", defs),
@@ -166,11 +193,15 @@ def model(depth):
 
 
 # ------------------------------------------------------------------------------------ code -> spec
-def record_traces(n, length, seed):
+def record_traces(n, length, seed, variant="base"):
     rnd = random.Random(seed)
     traces = []
+    v = VARIANTS[variant]
+    keys = keys_of(variant)
+    qk = v["contracts"] + 2 * sorted(v["chains"])
+    tmax = max(v["ltd"])
     for _ in range(n):
-        ex, cs, chain, tmap, AC = _world()
+        ex, cs, chain, tmap, AC = _world(variant)
         saved = AC.now
         st = {"now": 0}
         AC.now = tmap[0]
@@ -180,16 +211,16 @@ def record_traces(n, length, seed):
                 r = rnd.random()
                 if r < 0.62:
                     b = rnd.choice([8, 9, 12, 20])
-                    op = {"op": "quote", "k": rnd.choice(["A", "B", "F1", "F2", "CH", "CH"]), "bid": b,
+                    op = {"op": "quote", "k": rnd.choice(qk), "bid": b,
                           "ask": b + rnd.choice([0, 0, 1, 2]), "t": st["now"]}
                 elif r < 0.8:
-                    op = {"op": "disc", "k": rnd.choice(["A", "B", "F1", "F2", "CH"]), "bid": 0, "ask": 0, "t": st["now"]}
+                    op = {"op": "disc", "k": rnd.choice(qk[:-len(v["chains"])]), "bid": 0, "ask": 0, "t": st["now"]}
                 else:
-                    if st["now"] >= 6:
+                    if st["now"] >= tmax:
                         continue
-                    op = {"op": "advance", "k": "-", "bid": 0, "ask": 0, "t": rnd.randint(st["now"] + 1, 6)}
+                    op = {"op": "advance", "k": "-", "bid": 0, "ask": 0, "t": rnd.randint(st["now"] + 1, tmax)}
                 op["out"] = apply(ex, cs, chain, tmap, AC, op, st)
-                op["view"] = observe(ex, cs, chain, KEYS)
+                op["view"] = observe(ex, cs, chain, keys)
                 ops.append(op)
         finally:
             AC.now = saved
@@ -197,13 +228,14 @@ def record_traces(n, length, seed):
     return traces
 
 
-def validate_traces(rep, traces, name="trace"):
+def validate_traces(rep, traces, name="trace", variant="base"):
     wd = tlc.new_workdir("C14-trace")
     path = os.path.join(wd, "traces.json")
     with open(path, "w") as f:
         json.dump(traces, f)
     expected = sum(len(t["ops"]) + 1 for t in traces)
-    defs = {"Contracts": set(CONTRACTS), "ChainSeq": ["F1", "F2"], "ChainLtd": LTD}
+    v = VARIANTS[variant]
+    defs = {"Contracts": set(v["contracts"]), "ChainSeq": list(v["seq"]), "ChainLtd": list(v["ltd"]), "ChainOff": chain_off(variant)}
     module = tlagen.mc_module("MCT", "ExchangeTrace", defs)
     cfg = tlagen.cfg(defs, {"ExpectedStates": expected}, invariants=["Accepted"], postcondition="AllConsumed")
     try:
@@ -242,8 +274,15 @@ def c14(tier, seed):
     mod, cfg, inv, props = model(depth)
     explore.explore_and_replay(rep, "exchange", mod, cfg, ("harness.exchange_check", "replay_chunk"), {},
                                set(CLAUSE_PROPS), inv, props, chunk=500)
+    # a chain of three contracts addressed by its lead and, through a second chain object built with month=1, one contract
+    # down the curve; the clock crosses both rolls
+    mod, cfg, inv, props = model(depth + 1, "offset")
+    explore.explore_and_replay(rep, "exchange-chain-offset", mod, cfg, ("harness.exchange_check", "replay_chunk"),
+                               {"variant": "offset"}, set(CLAUSE_PROPS), inv, props, chunk=500)
     n, length = (400, 25) if tier == "quick" else (4000, 40)
     traces = record_traces(n, length, seed)
     rep.sample({"recorded_trace": [{k: v for k, v in o.items() if k != "view"} for o in traces[0]["ops"][:8]]})
     validate_traces(rep, traces)
+    traces = record_traces(n // 2, length, seed + 1, "offset")
+    validate_traces(rep, traces, "trace-chain-offset", "offset")
     return rep.finish()
